@@ -70,6 +70,9 @@ enum Op {
     Case { x: u8, fresh: bool },
     Subscribe(u8),
     Complete(u8),
+    /// SetVIDVerificationStatement by commissioner x over its CASE session (legal before
+    /// CommissioningComplete: it touches the fabric that is still staged)
+    Vid(u8),
     /// RemoveFabric(fabric of x) sent by commissioner `by`
     Remove { x: u8, by: u8 },
     /// ArmFailSafe(0) by commissioner x (over its PASE session, else its CASE session)
@@ -123,6 +126,7 @@ fn any_op() -> impl Strategy<Value = Op> {
         4 => (comm(), any::<bool>()).prop_map(|(x, fresh)| Op::Case { x, fresh }),
         2 => comm().prop_map(Op::Subscribe),
         3 => comm().prop_map(Op::Complete),
+        1 => comm().prop_map(Op::Vid),
         3 => (comm(), comm()).prop_map(|(x, by)| Op::Remove { x, by }),
         2 => comm().prop_map(Op::Arm0),
         2 => comm().prop_map(Op::Revoke),
@@ -254,6 +258,9 @@ fn expand(p: &Phase) -> Vec<Op> {
             let mut v = vec![Op::Pase(*x), Op::Arm(*x, 30), Op::Csr(*x), Op::Root(*x), Op::AddNoc(*x), Op::Case { x: *x, fresh: true }];
             if *subscribe {
                 v.push(Op::Subscribe(*x));
+            }
+            if *wait % 2 == 0 {
+                v.push(Op::Vid(*x));
             }
             v.push(Op::Wait(*wait));
             v.push(match ender % 6 {
@@ -879,6 +886,18 @@ fn run_segment<CC: rs_matter::crypto::Crypto>(
                             p.labels.push("committed".into());
                         }
                         note = o.brief();
+                    }
+                }
+            }
+            Op::Vid(x) => {
+                let xi = *x as usize;
+                if comms[xi].fab.is_some() {
+                    if let Some(sp) = ensure_case(b, comms, t, xi, ctrl_fab, p) {
+                        let o = b.invoke(xi, sp.ctrl_sid, &Cmd::SetVidStatement { vendor_id: Some(0xFFF1), statement: None });
+                        if o.accepted() {
+                            p.labels.push(if comms[xi].committed { "vid-statement-on-committed-fabric" } else { "vid-statement-on-staged-fabric" }.into());
+                        }
+                        note = format!("SetVIDVerificationStatement -> {}", o.brief());
                     }
                 }
             }
